@@ -70,8 +70,16 @@ func (c *Ctx) ctxThroughCall(call *ssa.Call, v ssa.Value, chain *[]string, seen 
 	if cb := callbackName(call); cb != "" {
 		name = "CB:" + cb
 	}
-	*chain = append(*chain, name)
 	callee := core.StaticCallee(call)
+	if callee != nil {
+		// the slot setters under their frozen names, whatever they are called now
+		for _, canon := range []string{"setTypeInfo", "setRemoteAddress", "setClientParameters", "setServerParameters"} {
+			if callee == c.P.Func("wire", canon) {
+				name = canon
+			}
+		}
+	}
+	*chain = append(*chain, name)
 	switch {
 	case callee == nil: // callback or interface: trusted to return a context derived from its argument
 	case callee.Pkg != nil && callee.Pkg.Pkg.Path() == "context":
